@@ -229,8 +229,33 @@ def run(ctx):
                 and not isinstance(const_value(s.value), bool) and any(isinstance(x, ast.AugAssign) and access_path(x.target) == s.targets[0].id for x in w.body):
             FN = s.targets[0].id
     if FN is None:
+        # not the counter/peeling schema.  One variant is a recognised contradiction: a work list processed
+        # last-in-first-out where a member released by its last dominator gets that dominator's rank + 1.
+        lifo = None
+        wl = access_path(w.test.left.args[0]) if (isinstance(w.test, ast.Compare) and isinstance(w.test.left, ast.Call) and access_path(w.test.left.func) == "len"
+                                                  and w.test.left.args) else access_path(w.test)
+        if wl:
+            pops = [s for s in w.body if isinstance(s, ast.Assign) and isinstance(s.value, ast.Call) and method_call(s.value)
+                    and access_path(method_call(s.value)[0]) == wl and method_call(s.value)[1] == "pop" and isinstance(s.targets[0], ast.Name)]
+            if len(pops) == 1:
+                mvar = pops[0].targets[0].id
+                a_ = pops[0].value.args
+                is_lifo = not a_ or (is_const(a_[0]) and const_value(a_[0]) == -1)
+                from_member = [s for s in stmts_of(w) if isinstance(s, ast.Assign) and isinstance(s.value, ast.BinOp) and isinstance(s.value.op, ast.Add)
+                               and feat(s.value.left) == (mvar, "front_number") and is_const(s.value.right) and const_value(s.value.right) == 1]
+                once = [s for s in stmts_of(w) if isinstance(s, ast.If) and "domination_counter" in text(s.test) and "== 0" in text(s.test)
+                        and any(isinstance(b, ast.Assign) and feat(b.targets[0]) and feat(b.targets[0])[1] == "front_number"
+                                and from_member and access_path(b.value) == access_path(from_member[0].targets[0]) for b in s.body)]
+                if is_lifo and from_member and once:
+                    lifo = pops[0]
+        if lifo is not None:
+            ctx.violated("R5", C, where(mod, lifo),
+                         "members are ranked from a work list taken last-in-first-out (%s) and a released member gets the rank of the dominator that released it + 1: "
+                         "with a1 > q, a2 > b > q (a1, a2 non-dominated) the stack processes a2, b, a1, so q is released by a1 with rank 2 although b (rank 2) dominates it"
+                         % text(lifo).strip())
+        else:
+            ctx.inconclusive("R5", C, where(mod, w), "front counter not recognised: the ranking loop is not the counter/peeling schema")
         ctx.inconclusive("R4", C, where(mod, fn), "front counter not recognised")
-        ctx.inconclusive("R5", C, where(mod, w), "front counter not recognised")
         return
 
     class FrontEnv:
